@@ -78,8 +78,25 @@ def cases(tier, seed):
                        "ignore": ignore, "ctype": ctype, "method": method,
                        "kinds": kinds, "lo": lo, "hi": min(n, lo + step),
                        "stored": (lo // step + nvars) % 3}
+    # cells of an internal dimension that hold +inf next to a finite value
+    # (data under either criterion), among plain and empty ones
+    for shp in ((2,), (3,), (2, 2)):
+        L = 1
+        for s in shp:
+            L *= s
+        for nvars, ignore, method in itertools.product(
+                (1, 2), (False, True), ("isnull", "isfinite")):
+            yield {"shape": list(shp), "nvars": nvars, "internal": True,
+                   "ignore": ignore, "ctype": "num", "method": method,
+                   "kinds": ["data", "null", "infmix"], "lo": 0, "hi": 3 ** L,
+                   "stored": (L + nvars) % 3}
     for method in ("isnull", "isfinite"):
         yield {"loop": True, "method": method}
+        # variables of a type that cannot hold a null at all
+        for vdt in ("int", "bool", "str"):
+            if vdt == "str" and method == "isfinite":
+                continue  # (finiteness of a string is not defined)
+            yield {"nonnull": vdt, "method": method}
 
 
 def worker_init():
@@ -112,6 +129,13 @@ def make_ds(case, assign):
                 # the first variable is null, the others keep their data
                 # (with a single variable: that variable is null)
                 if vi == 0:
+                    arr[loc] = np.nan
+            elif k == "infmix":
+                # +inf next to a finite value in the variable that has the
+                # internal dimension, nothing in the other variables
+                if has_t:
+                    arr[loc + (0,)] = np.inf
+                else:
                     arr[loc] = np.nan
             elif k == "partial":
                 if has_t:
@@ -168,6 +192,8 @@ def check_case(case):
 
     if case.get("loop"):
         return check_loop(case)
+    if case.get("nonnull"):
+        return check_nonnull(case)
     kinds = case["kinds"]
     shp = case["shape"]
     L = 1
@@ -313,6 +339,43 @@ def check_case(case):
             "outcome": "lattice-chunk",
             "violations": vio, "counts": {"datasets": ndatasets,
                                           "datasets_nontrivial": nontrivial}}
+
+
+def check_nonnull(case):
+    """a complete dataset of integers / booleans / strings: nothing inside
+    it is missing, every requested location outside it is"""
+    import numpy as np
+    import xarray as xr
+    from xyzpy.gen.case_runner import find_missing_cases, parse_into_cases
+
+    method, vdt = case["method"], case["nonnull"]
+    arr = {"int": np.array([[1, 2], [3, 4]]),
+           "bool": np.array([[True, False], [False, True]]),
+           "str": np.array([["p", "q"], ["r", "s"]])}[vdt]
+    ds = xr.Dataset({"out": (("a", "b"), arr)},
+                    coords={"a": [1, 2], "b": [10, 20]})
+    vio = []
+    key = "C13|nonnull-%s|%s|" % (vdt, method)
+    try:
+        fa, got = find_missing_cases(ds, method=method)
+        if list(got):
+            vio.append((key + "inside", "a complete %s dataset: reported %r"
+                        % (vdt, list(got)[:3])))
+        res = parse_into_cases(combos={"a": [2, 3], "b": [10, 30]}, ds=ds,
+                               method=method)
+        want = [{"a": 2, "b": 30}, {"a": 3, "b": 10}, {"a": 3, "b": 30}]
+        if res != want:
+            vio.append((key + "outside", "requested a in [2, 3] x b in [10, "
+                        "30] of a dataset holding a in [1, 2] x b in [10, "
+                        "20]: reported %r, expected %r" % (res, want)))
+        res = parse_into_cases(cases=[{"a": 1, "b": 10}, {"a": 7, "b": 10}],
+                               ds=ds, method=method)
+        if res != [{"a": 7, "b": 10}]:
+            vio.append((key + "outside-cases", "requested (1,10) and (7,10): "
+                        "reported %r" % (res,)))
+    except Exception as e:
+        vio.append((key + "raised:" + type(e).__name__, repr(e)))
+    return {"nontrivial": True, "outcome": "nonnull", "violations": vio}
 
 
 def check_loop(case):
